@@ -131,6 +131,12 @@ func VerifyFunc(w *World, spec *FuncSpec, prop string, safetyAll bool) (res *Fun
 			x.bindingFailure(fmt.Sprintf("exit clause %q applies at no return of %s", e.Name(), res.Fn))
 		}
 	}
+	for _, ac := range spec.AtCalls {
+		if ac.Assert != nil && x.atCallSkipped[ac.Assert.Name()] && x.exitHits["at-call:"+ac.Assert.Name()] == 0 {
+			x.curState = fr.entry
+			x.bindingFailure(fmt.Sprintf("at-call clause %q applies at no call of %s", ac.Assert.Name(), res.Fn))
+		}
+	}
 	if spec.Implicit && spec.ImmutChk && !spec.NoPanic && !spec.Lockset {
 		var keep []*Obligation
 		for _, o := range x.obls {
